@@ -710,10 +710,17 @@ pub fn analyze_tuple_pattern_for_complement(
 }
 
 /// Get field type IDs from a tuple value type.
+///
+/// Only a *single* tuple type qualifies. Per-field complement narrowing reasons about one field
+/// of one tuple: on a union (`R['int | Q] | S | []`) an emptied field complement would declare
+/// the block exhaustive although the other variants are unhandled, and the branch would count
+/// as covering them. A union scrutinee uses whole-value narrowing instead, whose matched type
+/// and complement are structural over tuple fields anyway.
 fn get_tuple_field_types(value_type_id: usize, program: &Program) -> Option<Vec<usize>> {
-    let tuples = extract_tuple_ids(value_type_id, program);
-    let first_tuple = tuples.first()?;
-    let tuple_info = program.lookup_tuple(*first_tuple)?;
+    let Some(Type::Tuple(tuple_id)) = program.lookup_type(value_type_id) else {
+        return None;
+    };
+    let tuple_info = program.lookup_tuple(*tuple_id)?;
     Some(
         tuple_info
             .fields
